@@ -27,6 +27,9 @@ Record ncfg := {
   c_trusted : list N;
   c_algos : algos }.
 
+(* Crypto::new: without configured trusted keys a node trusts exactly its own key *)
+Definition eff_trusted (c : ncfg) : list N := match c_trusted c with [] => [c_key c] | l => l end.
+
 Definition node_id_bytes (n : N) : bytes := be_enc 16 n.
 
 Record peer_data := {
@@ -108,7 +111,7 @@ Definition new_instance (n : node) (salt : N) : node * peer_crypto :=
   let k := n_objs n + 1 in
   let c := n_cfg n in
   (with_objs n k,
-   pc_new (c_num c) salt (ni_encode (create_node_info n)) (c_key c) (c_trusted c) (c_algos c)
+   pc_new (c_num c) salt (ni_encode (create_node_info n)) (c_key c) (eff_trusted c) (c_algos c)
           ((c_num c * 2 ^ 20 + k) * 2 ^ 40 + 1) (zeros 6)).
 
 (* oracle key: creating node and destination *)
